@@ -2,12 +2,14 @@
 
 spec = {"tasks": [{"id": int, "module": int, "deps": [n…], "prods": [n…], "after": [task id…],
                    "after_style": "expr"|"func"|"list", "spell": {"<n>": "rel"|"dot"|"dotdot"|"abs"|"absdd"},
-                   "dep_form": "bare"|"list"|"tuple"|"dict"|"kwargs", "prod_style": "return"|"param"}],
+                   "dep_form": "bare"|"list"|"tuple"|"dict"|"kwargs", "prod_style": "return"|"param",
+                   "pstyle": {"<n>": "arg"|"param"|"return"|"deco"}, "marks": [...], "force_task": bool}],
         "py": [n…],        # node ids that are in-memory PythonNodes (all other nodes are files data/n<n>.txt)
         "pk": [n…],        # node ids that are PickleNodes (file data/n<n>.txt holding a pickle)
         "dirs": [n…],      # node ids that are DirectoryNode(root_dir=data/dir<n>, pattern="*.txt") — declared as products only
         "subdirs": bool,   # module m lives in its own folder m<m>/task_m<m>.py (relative spellings then start with ../)
         "pyval": {"<n>": 1|2},  # in-memory nodes created with an initial value (None / 0) instead of value-less
+        "iface": "paths"|"tasks-fwd"|"tasks-rev",   # path collection, or the functions handed to build(tasks=[…]) in either order (one module)
         "opts": {…},       # build options that must be irrelevant to well-formedness (check_casing_of_paths, force, dry_run, verbose, capture)
         "wrap": [[t, n]…], # (API level only) dependency declared through a wrapping PythonNode
         "stale": bool}     # product files already exist before the first build
@@ -377,6 +379,15 @@ def add_decoration(rng, spec, mark_p=0.35, task_p=0.2):
     for t in spec["tasks"]:
         t["marks"] = [rng.choice(MARKS)] if rng.random() < mark_p else []
         t["force_task"] = rng.random() < task_p
+    add_product_styles(rng, spec)
+    return spec
+
+
+def add_product_styles(rng, spec):
+    """A declaration style per product, so that one task mixes the `produces` argument, Product parameters, a return annotation
+    and @task(produces=…)."""
+    for t in spec["tasks"]:
+        t["pstyle"] = {str(n): rng.choice(["arg", "param", "param", "return", "deco"]) for n in set(t["prods"])}
     return spec
 
 
@@ -418,6 +429,7 @@ def gen_after_forms(rng, close_cycle=False):
     for t in tasks:
         t.setdefault("dep_form", "bare")
         t.setdefault("prod_style", "param")
+    add_product_styles(rng, spec)
     add_spellings(rng, spec)
     return spec
 
@@ -648,10 +660,56 @@ def render_module(spec, m):
                 withdef.append(f"d{n}: Path = {pe(n)}")
         uniq = list(dict.fromkeys(t["prods"]))
         nret = 0
+        ret_annot = None
         special = [n for n in uniq if n in py or n in pk]
         has_dir = any(n in dirs for n in uniq)
-        if special and not has_dir and t.get("prod_style", "return") == "return":
-            # `@task(produces=…)` replaces products declared through parameters, so every product of such a task goes through the return value
+        pstyle = t.get("pstyle")
+        if pstyle is not None:
+            # one declaration style PER PRODUCT: "arg" (the `produces` argument), "param" (Annotated[..., Product] parameter),
+            # "return" (return annotation), "deco" (@task(produces=…)); a task may mix them
+            st = {}
+            for n in uniq:
+                x = pstyle.get(str(n), "param")
+                if n in dirs:
+                    x = "param"
+                elif (n in py or n in pk) and x == "arg":
+                    x = "param"
+                st[n] = x
+            rets = [n for n in uniq if st[n] in ("return", "deco")]
+            if len(rets) > 1 or any(st[n] == "deco" for n in rets):
+                for n in rets:
+                    st[n] = "deco"       # only one of return annotation / decorator may be used, and an annotation holds one node
+            args = [n for n in uniq if st[n] == "arg"]
+            if len(args) == 1:
+                withdef.append(f"produces: Path = {pe(args[0])}")
+                path_prods.append("produces")
+            elif args:
+                withdef.append("produces: dict = {" + ", ".join(f"'a{i}': {pe(n)}" for i, n in enumerate(args)) + "}")
+                path_prods += [f"produces['a{i}']" for i in range(len(args))]
+            for i, n in enumerate(uniq):
+                if st[n] != "param":
+                    continue
+                if n in dirs:
+                    nodef.append(f"p{i}: Annotated[Path, DirectoryNode(root_dir={pe(n, True)}, pattern='*.txt'), Product]")
+                    dir_prods.append(f"p{i}")
+                elif n in py or n in pk:
+                    nodef.append(f"p{i}: Annotated[Any, {node_expr(n)}, Product]")
+                    save_prods.append(f"p{i}")
+                else:
+                    withdef.append(f"p{i}: Annotated[Path, Product] = {pe(n)}")
+                    path_prods.append(f"p{i}")
+            rets = [n for n in uniq if st[n] in ("return", "deco")]
+            if rets and st[rets[0]] == "return":
+                ret_annot = f"Annotated[Any, {node_expr(rets[0])}]"
+            elif rets:
+                exprs = [node_expr(n) for n in rets]
+                kw.append("produces=" + (exprs[0] if len(exprs) == 1 else "[" + ", ".join(exprs) + "]"))
+            nret = len(rets)
+            for n in uniq:
+                forms[f"{tid}:{n}"] = f"product-style={st[n]}"
+            if len({st[n] for n in uniq}) > 1:
+                forms[f"{tid}:mixed"] = "product-styles-mixed-on-one-task"
+        elif special and not has_dir and t.get("prod_style", "return") == "return":
             exprs = [node_expr(n) for n in uniq]
             kw.append("produces=" + (exprs[0] if len(exprs) == 1 else "[" + ", ".join(exprs) + "]"))
             nret = len(exprs)
@@ -674,7 +732,7 @@ def render_module(spec, m):
             deco_kind[tid] = "task"
         else:
             deco_kind[tid] = "marker-only" if marks else "plain"
-        L.append(f"def {project.tname(tid)}({', '.join(nodef + withdef)}):")
+        L.append(f"def {project.tname(tid)}({', '.join(nodef + withdef)})" + (f" -> {ret_annot}" if ret_annot else "") + ":")
         L.append(f"    return rt.body({tid}, [{', '.join(path_prods)}], {nret}, save=[{', '.join(save_prods)}], dirs=[{', '.join(dir_prods)}])")
         L.append("")
         defined.add(tid)
